@@ -520,12 +520,12 @@ pub fn random_unit(property: &'static str, cases: u32, seed: u64, part: usize, a
 
 pub fn units(property: &'static str, thorough: bool, seed: u64) -> Vec<Unit> {
     let mut u = Vec::new();
-    let cases = if thorough { 3000 } else { 250 };
+    let cases = if thorough { 8000 } else { 800 };
     for part in 0..14 {
         u.push(random_unit(property, cases, seed, part, false));
     }
     for part in 14..16 {
-        u.push(random_unit(property, if thorough { 150 } else { 12 }, seed, part, true));
+        u.push(random_unit(property, if thorough { 200 } else { 20 }, seed, part, true));
     }
     u
 }
